@@ -179,7 +179,7 @@ def match_finding(v, findings):
 # main entry
 
 def write_replay(pid, v):
-    d = os.path.join(VERIF_DIR, 'replays', pid)
+    d = os.path.join(os.environ.get('VERIF_REPLAY_DIR') or os.path.join(VERIF_DIR, 'replays'), pid)
     os.makedirs(d, exist_ok=True)
     path = os.path.join(d, digest([v['kind'], v['case']]) + '.json')
     body = dict(v)
@@ -261,8 +261,9 @@ def run_check(pid, tier, seed, jobs):
         'wall_s': round(time.time() - t0, 2),
         'violations': len(fresh),
     }
-    os.makedirs(os.path.join(VERIF_DIR, 'evidence'), exist_ok=True)
-    with open(os.path.join(VERIF_DIR, 'evidence', f'{pid}.json'), 'w') as f:
+    evdir = os.environ.get('VERIF_EVIDENCE_DIR') or os.path.join(VERIF_DIR, 'evidence')
+    os.makedirs(evdir, exist_ok=True)
+    with open(os.path.join(evdir, f'{pid}.json'), 'w') as f:
         json.dump(ev, f, indent=1, default=repr, ensure_ascii=False)
 
     print(f"{pid} tier={tier} seed={seed} evaluations={cov['evaluations']} distinct_nontrivial={cov['distinct_nontrivial']} "
